@@ -60,6 +60,7 @@ ToItem(v) ==
     [] v.t = "nil" -> Null
     [] v.t \in {"csig", "csigval"} -> SigItem(v.x)
     [] v.t = "csigs" -> Arr([i \in 1..Len(v.xs) |-> SigItem(v.xs[i])])
+    [] v.t = "simple" -> Simple(v.v)
     [] OTHER -> Undef                                \* nilcsig, struct, float: no CBOR image in the data model
 
 \* ---------------------------------------------------------------------------
